@@ -21,6 +21,12 @@ def main():
     out = os.path.join(mdir, "OUT")
     meta = json.load(open(os.path.join(out, "meta.json")))
     demo = "demo_test.rs" if os.path.exists(os.path.join(out, "demo_test.rs")) else "demo.rs"
+    def opt(name, default=None):
+        return sys.argv[sys.argv.index(name) + 1] if name in sys.argv else default
+    custom_cmd = opt("--demo-cmd")
+    custom_dst = opt("--demo-dst")
+    if opt("--demo-src"):
+        demo = opt("--demo-src")
     wt = f"/tmp/mutv-{name}"
     sh(f"git -C /repo worktree remove --force {wt}")
     rc, o = sh(f"git -C /repo worktree add -q --detach {wt} HEAD")
@@ -29,7 +35,18 @@ def main():
     result = dict(name=name, property=meta.get("property"), summary=meta.get("summary"), needs=meta.get("needs"))
     try:
         demo_dst = f"{wt}/tests/demo_test.rs" if demo == "demo_test.rs" else f"{wt}/examples/demo.rs"
-        if demo == "demo_test.rs":
+        if custom_dst:
+            demo_dst = os.path.join(wt, custom_dst)
+            os.makedirs(os.path.dirname(demo_dst), exist_ok=True)
+            for extra in (opt("--extra-files") or "").split(","):
+                if extra:
+                    src_, dst_ = extra.split(":")
+                    os.makedirs(os.path.dirname(os.path.join(wt, dst_)), exist_ok=True)
+                    shutil.copy(src_, os.path.join(wt, dst_))
+        if custom_cmd:
+            shutil.copy(os.path.join(out, demo), demo_dst)
+            run_demo = custom_cmd.replace("{TGT}", tgt).replace("{WT}", wt)
+        elif demo == "demo_test.rs":
             shutil.copy(os.path.join(out, demo), f"{wt}/tests/demo_test.rs")
             run_demo = f"CARGO_TARGET_DIR={tgt} cargo test --offline --test demo_test"
         else:
@@ -63,6 +80,8 @@ def main():
     os.makedirs(sdir, exist_ok=True)
     shutil.copy(f"{out}/patch.diff", sdir)
     shutil.copy(f"{out}/{demo}", sdir)
+    if custom_cmd:
+        open(f"{sdir}/demo_cmd.txt", "w").write(f"demo placed at {custom_dst}; run: {custom_cmd}\n")
     # run the checks against it
     assert sh("git -C /repo status --porcelain -- src")[1].strip() == "", "repo not clean"
     rc, o = sh(f"git -C /repo apply {sdir}/patch.diff")
